@@ -43,6 +43,10 @@ def settings(tier):
 def inner_tasks(tier, heavy):
     t = [('storage',)]
     t += [('transfer', False, 'mL', 'range', 'finite'), ('transfer', False, 'mmol', 'range', 'inf')]
+    # "the same accept/refuse decisions": the refusal boundaries under every setting (over-draw by volume / mass / moles,
+    # a fill below the current quantity)
+    t += [('transfer', False, 'nL', 'over', 'inf'), ('transfer', False, 'mg', 'over', 'finite'),
+          ('transfer', False, 'mmol', 'over', 'inf'), ('op', 'fill_to', (2, 'mL', 'below', 'inf'))]
     t += [('op', 'add', (2, 'mL', 'pos', 'finite')), ('op', 'add', (1, 'mmol', 'pos', 'inf')),
           ('op', 'fill_to', (2, 'mL', 'above', 'finite')), ('op', 'fill_to', (1, 'mol', 'above', 'inf')),
           ('op', 'remove', (2, 'finite')), ('op', 'get_volume', ('mL',)), ('op', 'get_volume', (None,)),
